@@ -1132,3 +1132,23 @@ Proof.
   { induction nd as [|n IH]; auto. simpl. rewrite IH. reflexivity. }
   rewrite C, D. simpl. lia.
 Qed.
+
+(* ------------------------------------------------------------------------- *)
+(* statements as used by C05.v                                               *)
+(* ------------------------------------------------------------------------- *)
+
+Theorem pc_deadlock_free cap vss nc nd c :
+  1 <= cap -> 1 <= nc -> reachable (pc_config cap vss nc nd) c -> deadlocked c = false.
+Proof. intros Hcap Hnc Hr. apply W_deadlock_free. eapply (reachable_W cap vss nc nd); eauto. Qed.
+
+Theorem pc_progress cap vss nc nd c :
+  1 <= cap -> 1 <= nc -> reachable (pc_config cap vss nc nd) c -> final c = false ->
+  exists t, t < length (threads c) /\ enabled c t = true.
+Proof. intros Hcap Hnc Hr. apply W_progress. eapply (reachable_W cap vss nc nd); eauto. Qed.
+
+Theorem pc_no_panic cap vss nc nd c :
+  1 <= cap -> 1 <= nc -> reachable (pc_config cap vss nc nd) c -> no_stuck c.
+Proof.
+  intros Hcap Hnc Hr. pose proof (reachable_W cap vss nc nd c Hcap Hnc Hr) as HW.
+  eapply Forall_impl; [|apply (W_shape c HW)]. apply shape_not_stuck.
+Qed.
